@@ -1,0 +1,16 @@
+//go:build verif
+
+// Contracts for the verification harness in /verif (comment-only; no declarations).
+package discovery
+
+//@ pred validAPIResource(r) = r != nil && ufb_validGroupVersion(r.APIVersion)
+
+//@ func ResourceMap.Get(rm, apiVersion, resource) (result)
+//@   trusted entries are built by refresh() from group versions that schema.ParseGroupVersion accepted
+//@   requires rm != nil
+//@   ensures result != nil ==> validAPIResource(result)
+
+//@ func ResourceMap.GetKind(rm, apiVersion, kind) (result)
+//@   trusted entries are built by refresh() from group versions that schema.ParseGroupVersion accepted
+//@   requires rm != nil
+//@   ensures result != nil ==> validAPIResource(result)
